@@ -109,6 +109,12 @@ where
     #[allow(clippy::needless_continue)]
     fn poll_next(self: Pin<&mut Self>, cx: &mut Context<'_>) -> Poll<Option<Self::Item>> {
         let fair_queue = self.get_mut();
+        // Streams that returned Pending during this call. If one of them is in
+        // the ready queue again it woke its own waker before returning (a
+        // cooperative yield, e.g. tokio's task budget running out while the
+        // future is not driven by a worker thread): give the executor a turn
+        // instead of polling that stream again and again.
+        let mut yielded: Vec<K> = Vec::new();
         loop {
             let (event, mut io_stream) = {
                 let mut inner = fair_queue.inner.lock();
@@ -123,6 +129,12 @@ where
                         }
                     }
                 };
+                if yielded.contains(&event.key) {
+                    inner.ready_queue.push(event);
+                    drop(inner);
+                    cx.waker().wake_by_ref();
+                    return Poll::Pending;
+                }
                 #[cfg(feature = "verif-hooks")]
                 crate::verif_hooks::fq_note_popped(event.priority);
                 match inner.streams.remove(&event.key) {
@@ -159,6 +171,7 @@ where
                     continue;
                 }
                 Poll::Pending => {
+                    yielded.push(event.key.clone());
                     let mut inner = fair_queue.inner.lock();
                     inner.streams.insert(event.key, io_stream);
                     #[cfg(feature = "verif-hooks")]
